@@ -401,6 +401,15 @@ fn contention_batch() -> Batch {
             }
         }
     }
+    // wide tuples and chains (9 .. 70 children in one node): scratch state that belongs to a node
+    // instead of to one evaluation shows up as a tuple of the wrong length or content
+    for n in [9usize, 10, 16, 17, 33, 64, 70] {
+        let elems: Vec<String> = (0..n).map(|k| if k % 4 == 3 { format!("{}.5", k) } else if k % 4 == 1 { format!("\"e{}\"", k) } else { k.to_string() }).collect();
+        sources.push(elems.join(", "));
+        sources.push(format!("({}), {}", elems.join(", "), n));
+        sources.push(elems.join("; "));
+        sources.push(format!("len(({}))", elems.join(", ")));
+    }
     let ctx = Ctx::hashmap();
     let mut kept = Vec::new();
     let mut trees = Vec::new();
